@@ -191,7 +191,8 @@ def parse_race_log(text):
                 stacks.append((line.split(" by ")[0].split(" at ")[0].strip(), cur))
                 continue
             if cur is not None and line.startswith("  ") and not line.startswith("      "):
-                fn = line.strip().split("(")[0]
+                # "  github.com/x/y.(*T).method(args)" -> function name without the argument list
+                fn = re.sub(r"\([^()]*\)$", "", line.strip())
                 if fn:
                     cur.append(fn)
         acc = [s for s in stacks if not s[0].startswith("Goroutine")][:2]
@@ -374,7 +375,7 @@ def main_check(prop, tier):
                     inconclusive.append("%s: race report without fiber frame (harness race?)" % s["engine"])
                     log("HARNESS-RACE\n" + rep["text"])
                     continue
-                names = sorted(re.sub(r"github\.com/(gofiber/fiber/v3|valyala/)", "", f).lstrip("/.") for f in fib)
+                names = sorted(re.sub(r"^github\.com/(gofiber/fiber/v3|valyala/|gofiber/)", "", f).lstrip("/.") for f in fib)
                 add_violation("race|" + "|".join(names), "data race reported by the race detector", s,
                               r["last_case"], r["seed"], {"report": rep["text"]})
         need = s.get("min_nontrivial", {}).get(tier, 2)
